@@ -601,6 +601,8 @@ def run_tau(spec, res):
                 rng = np.random.default_rng([spec['seed'], 71])
                 bs = refbpch.gen_spec(rng, small=True)
                 bs.update(nt=nt, tau0=spec['tau0'], dtau=spec['dtau'])
+                # (this mode's oracle is for consecutive intervals)
+                bs.pop('same_start', None)
                 path = os.path.join(d, 'in.bpch')
                 with open(path, 'wb') as fh:
                     fh.write(refbpch.encode(bs))
